@@ -1,0 +1,38 @@
+//! Observation points for external verification tooling.
+//!
+//! Compiled only with `RUSTFLAGS="--cfg geo_booleanop_verif"`; without that flag nothing in
+//! this file exists and the crate behaves exactly as before.
+
+use std::cell::Cell;
+
+pub use super::connect_edges::{connect_edges, Contour};
+pub use super::divide_segment::divide_segment;
+pub use super::segment_intersection::{intersection, LineIntersection};
+pub use super::signed_area::signed_area;
+
+thread_local! {
+    static POPPED: Cell<u64> = const { Cell::new(0) };
+    static BUDGET: Cell<u64> = const { Cell::new(u64::MAX) };
+}
+
+/// Resets the per-thread counter of sweep events and sets the budget for the calls to come.
+pub fn reset_event_budget(budget: u64) {
+    POPPED.with(|c| c.set(0));
+    BUDGET.with(|c| c.set(budget));
+}
+
+/// Number of events popped by the sweep loop in this thread since the last reset.
+pub fn events_popped() -> u64 {
+    POPPED.with(|c| c.get())
+}
+
+/// Called once per event popped from the queue by `subdivide`.
+pub(crate) fn count_event() {
+    let n = POPPED.with(|c| {
+        c.set(c.get() + 1);
+        c.get()
+    });
+    if n > BUDGET.with(|c| c.get()) {
+        panic!("geo_booleanop_verif: event budget exceeded");
+    }
+}
